@@ -111,7 +111,7 @@ theorem scanStep_eq (st : Option (Bool × Bool)) (c : Nat) : scanStep st c = .ok
         have hk : ((k : Int) ≠ -1) := by omega
         simp [inTable, hc, hk, pure, Except.pure]
 
-theorem foldlM_ok {σ ι : Type} (f : σ → ι → Res σ) (g : σ → ι → σ) (h : ∀ s i, f s i = .ok (g s i)) :
+theorem foldlM_ok_pure {σ ι : Type} (f : σ → ι → Res σ) (g : σ → ι → σ) (h : ∀ s i, f s i = .ok (g s i)) :
     ∀ (l : List ι) (s : σ), l.foldlM f s = .ok (l.foldl g s) := by
   intro l
   induction l with
@@ -149,7 +149,7 @@ theorem scanPure_fold : ∀ (l : List Nat) (n a : Bool),
 theorem scanContent_eq (content : List Nat) :
     scanContent content =
       .ok (if content.all inTable then some (content.any isDigitB, content.any (fun c => !isDigitB c)) else none) := by
-  rw [scanContent_def, foldlM_ok scanStep scanPure scanStep_eq, scanPure_fold]
+  rw [scanContent_def, foldlM_ok_pure scanStep scanPure scanStep_eq, scanPure_fold]
   simp
 
 theorem all_digit_iff (content : List Nat) : content.all isDigitB = !content.any (fun c => !isDigitB c) := by
